@@ -144,6 +144,29 @@ func main() {
 		b, _ := gdot.Marshal(g, "", "", "")
 		fmt.Printf("%-34s edge a->b printed: %v\n", "R15 dot.Marshal same-name subgraph", bytes.Contains(b, []byte("a -> b")))
 	})
+	try("R23 dot.Marshal nested Subgrapher", func() {
+		// x -> S, S = {h; T -> h}, T = {k}: S has incoming edges only
+		k := chk.NewDDirected()
+		k.SetDOTID("T")
+		k.AddNode(&chk.DNode{NID: 0, Name: "k"})
+		s := chk.NewDDirected()
+		s.SetDOTID("S")
+		h := &chk.DNode{NID: 0, Name: "h"}
+		tn := &chk.SubNode{NID: 1, G: k}
+		s.AddNode(h)
+		s.AddNode(tn)
+		s.SetEdge(s.NewEdge(tn, h))
+		g := chk.NewDDirected()
+		x := &chk.DNode{NID: 0, Name: "x"}
+		sn := &chk.SubNode{NID: 1, G: s}
+		g.AddNode(x)
+		g.AddNode(sn)
+		g.SetEdge(g.NewEdge(x, sn))
+		b, _ := gdot.Marshal(g, "", "", "")
+		back := chk.NewDDirected()
+		err := gdot.Unmarshal(b, back)
+		fmt.Printf("%-34s err=%v edges after round trip=%d (x->h, x->k, k->h expected)\n", "R23 dot.Marshal nested Subgrapher", err, back.Edges().Len())
+	})
 	try("R16 rdf.Deduplicate", func() {
 		out := rdf.Deduplicate(parse("_:a <a:p> _:b <a:g> .", "_:a <a:p> _:b .", "_:a <a:p> _:b <a:g> ."))
 		fmt.Printf("%-34s %d statements (2 distinct)\n", "R16 rdf.Deduplicate", len(out))
